@@ -106,7 +106,7 @@ ALL = {
     'C05': dict(
         technique='solver-based: CrossHair/z3 exhaustion of symbolic (typed position, literal) pairs and of bounded histories run '
                   'under both validation levels',
-        text='Bounded model checking: 19 typed positions x 39 valid/invalid literals, 17 API attempts, and every history of length <=2 over the C09 '
+        text='Bounded model checking: 19 typed positions x 44 valid/invalid literals, 17 API attempts, and every history of length <=2 over the C09 '
              'alphabet on a segment, a message and a field: whatever STRICT accepts TOLERANT accepts with the same encoding and '
              'report, and a STRICT-accepted element draws no validator error other than missing required children.',
         note='Deep lexical side of DT/TM/DTM/NM/SI is C13. v2.5.',
@@ -143,7 +143,7 @@ ALL = {
     'C08': dict(
         technique='solver-based: CrossHair/z3 exhaustion of symbolic instance choices (presence bits, repetition counts) of message '
                   'structures through the real group-finding parser, compared with a reference expander',
-        text='Bounded model checking: 64 structures (thorough 400, seeded) x 576 instances each, TOLERANT and STRICT: every parsed element is a declared '
+        text='Bounded model checking: 44 structures (thorough 400, seeded) x 576 instances each, TOLERANT and STRICT: every parsed element is a declared '
              'child of its parent, flattening gives the input sequence, find_groups=False encodes identically, and for structures '
              'with unique segment names the tree equals the reference tree and has no structural validation error.',
         note='Instances: first 6 optional children, up to 2 repeated groups whose first member is required and non-repeatable.',
